@@ -183,7 +183,9 @@ def renderStructLine (f : Field) (ctx : ImplContext) (hint : TypeHint) (idx : Na
     else return [i ident, colon] ++ obj ++ [i ident, comma]
   | .named ident, none, .existing, .struct | .named ident, none, .existing, .unspecified =>
     return other ++ getFieldPath f.member ++ [eq] ++ obj ++ [i ident, semi]
-  | .named ident, none, .into, .tuple => return obj ++ [i ident, comma]
+  | .named ident, none, .into, .tuple =>
+    if ctx.hasPostInit then return [i "obj", dot] ++ (Member.unnamed idx).toTS ++ [eq] ++ obj ++ [i ident, semi]
+    else return obj ++ [i ident, comma]
   | .named ident, none, .existing, .tuple =>
     return other ++ (Member.unnamed f.idx).toTS ++ [eq] ++ obj ++ [i ident, semi]
   | .named ident, none, .from_, .struct | .named ident, none, .from_, .unspecified | .named ident, none, .from_, .unit =>
@@ -222,7 +224,8 @@ def renderStructLine (f : Field) (ctx : ImplContext) (hint : TypeHint) (idx : Na
   | .named _, some attr, .into, .tuple => do
     let rfp := getChildFieldPath f.member
     let rightSide ← attr.getActionOr (some rfp) ctx (obj ++ rfp)
-    return rightSide ++ [comma]
+    if ctx.hasPostInit then return [i "obj", dot] ++ (Member.unnamed idx).toTS ++ [eq] ++ rightSide ++ [semi]
+    else return rightSide ++ [comma]
   | .named _, some attr, .existing, .tuple => do
     let left := getFieldPath (.unnamed idx)
     let rfp := getChildFieldPath f.member
@@ -239,7 +242,8 @@ def renderStructLine (f : Field) (ctx : ImplContext) (hint : TypeHint) (idx : Na
     let ix := if ctx.isVariant then fIdent index else f.member
     let fieldPath := getChildFieldPath ix
     let rightSide ← attr.getActionOr (some fieldPath) ctx (obj ++ fieldPath)
-    return rightSide ++ [comma]
+    if ctx.hasPostInit then return [i "obj", dot] ++ (Member.unnamed idx).toTS ++ [eq] ++ rightSide ++ [semi]
+    else return rightSide ++ [comma]
   | .unnamed _, some attr, .existing, .tuple | .unnamed _, some attr, .existing, .unspecified => do
     let left := getFieldPath (← attr.getFieldNameOr f.member)
     let rfp := getChildFieldPath f.member
@@ -889,10 +893,14 @@ def quoteIntoExistingTrait (q : QuoteTraitParams) (preInit init post : TS) : TS 
 def quoteTryIntoExistingTrait (q : QuoteTraitParams) (errTy preInit init post : TS) : TS :=
   skel Gen.tmpl_quote_try_into_existing_trait 0 (q.env ++ [("err_ty", errTy), ("pre_init", preInit), ("init", init), ("post_init", post)])
 
+/-- the calls for parameterless `#[parent]` members: none for From, none when a quick return stands for the body -/
+def postInitOf (input : DataType) (ctx0 : ImplContext) : E (Option TS) :=
+  if ctx0.kind.isFrom || ctx0.structAttr.quickReturn.isSome then pure none else structPostInit input ctx0
+
 /-- `quote_trait` -/
 def quoteTrait (input : DataType) (ctx0 : ImplContext) : E TS := do
   let preInit := (structPreInit ctx0).getD []
-  let postInit ← (if ctx0.kind.isFrom then pure none else structPostInit input ctx0)
+  let postInit ← postInitOf input ctx0
   let ctx := { ctx0 with hasPostInit := postInit.isSome }
   match ctx.kind.cls, ctx.fallible with
   | .from_, false => do
